@@ -7,6 +7,10 @@ props={json.loads(l)['id']:json.loads(l) for l in open('/verif/properties.jsonl'
 DESC={
 'C01-r7-1':('FsTxn.Abort writes the aborted transaction\'s dirty buffers to the journal (CommitWait(false) before dropping the cached inodes)','an operation that fails after it has started writing (RENAME to a 113-byte name) followed by a flush: the half-done operation is durable'),
 'C01-r7-2':('a SETATTR that leaves the freeing to the background shrinker ends with CommitUnstable and answers OK','a truncation too large for one transaction and a power cut right after the reply: the acknowledged truncation is lost'),
+'C03-r7-1':('getAlloc looks the name up only on its first attempt (a checked flag skips dir.LookupName on the retry after helping the shrinker)','the allocator hands CREATE an inode that is still being freed, and another client creates the same name while the request helps the shrinker: both are acknowledged, the name is listed twice'),
+'C03-r7-2':('doDecLink skips Resize(0) when the inode is already shrinking','a truncation to a non-zero size still in progress, REMOVE before the shrinker\'s last round, reuse of the inode number: the new file has the old size and data'),
+'C12-r7-1':('the partial-block arm of Inode.Write copies the whole remaining request buffer (copy(buffer.Data[byteoff:], data))','a WRITE with count < len(data) ending inside a block, then growth over that block: bytes behind the count read back'),
+'C12-r7-2':('Inode.Read keeps its result buffer in the cached inode (ip.rbuf) and reuses it','two READs of one file, the second before the first reply is encoded: a hole reads as another READ\'s data'),
 'C05-r7-1':('postCommit(durable) runs AllocTxn.PostCommit only for synchronous commits: frees of an unstable commit never return to the in-memory allocator','an UNSTABLE WRITE cut short by a full disk right after indbmap gave back an index block: memory and disk disagree about one block until restart'),
 'C05-r7-2':('Inode.IsShrinking answers "no" when the eight direct and the indirect pointer are null, without looking at the doubly indirect one','a sparse file with data only beyond block 520, removed or truncated: nothing is freed, for ever'),
 'C06-r7-1':('lockInodes sorts its numbers in descending order','LOOKUP/REMOVE in a directory racing a RENAME onto an existing name: each holds what the other wants'),
